@@ -60,8 +60,11 @@ CONSTANTS Family,            \* "C16q" | "C16t" : which input families Init rang
           SessionEndRule,    \* what JWTSessionCodec.New does with AuthnStatement/@SessionNotOnOrAfter:
                              \* "ignore" (the code) | "min" (an earlier IdP end shortens the session) |
                              \* "max" (a later IdP end lengthens it)
-          CookieAgeOverridesExp  \* CookieSessionProvider.CreateSession rewrites the token's exp to
+          CookieAgeOverridesExp, \* CookieSessionProvider.CreateSession rewrites the token's exp to
                              \* iat + the PROVIDER's (cookie) MaxAge when that is positive   (FALSE in the code)
+          PreflightBypass    \* Middleware.RequireAccount hands a request shaped like a CORS preflight (method
+                             \* OPTIONS + Access-Control-Request-Method) to the wrapped handler without looking
+                             \* for a session                                                (FALSE in the code)
 \* The three switches are TRUE in every registered configuration.  Setting one to
 \* FALSE is the design-level counterpart of the code mutants C16 must catch: TLC then
 \* reports OnlyMintedSessionTokensAuthenticate (resp. TrackerRefusesSessionTokens) violated.
@@ -76,6 +79,11 @@ CONSTANTS Family,            \* "C16q" | "C16t" : which input families Init rang
 \* design-level counterpart of a code change C16 must catch ("keep token and cookie in step"): with a
 \* cookie MaxAge longer than the codec's, TLC reports NothingLengthensTheSession (part "life") and
 \* OnlyMintedSessionTokensAuthenticate (part "token", reason tooOld) violated.
+\* PreflightBypass is FALSE in every registered configuration that emits vectors (RequireAccount decides
+\* by the session alone, whatever the request's method and headers).  TRUE is the named deviation of the
+\* same name, the design-level counterpart of a code change C16 must catch ("let the application answer
+\* preflights"): TLC reports OnlyMintedSessionTokensAuthenticate violated (family "shape",
+\* SessionToken_C16shape.cfg - a registered refutation phase).
 
 Absent  == -999999999      \* a time claim that is not in the token (StandardClaims: 0 = unset)
 Far     == 100000          \* "far" in seconds; larger than every lifetime used
@@ -143,6 +151,9 @@ UrlCfgs == IF Family = "C16q" THEN WithUrl(DiagCfgs) ELSE WithUrl(FourCfgs)
 \*  marker   true | false | absent (the kind's own marker claim) | wrongMarker (only the other codec's)
 \*  mutation applied to the finished token string
 \*  slot     named (cookie carries the configured session-cookie name) | other
+\*           | none (family RequestShapes only: the request carries no Cookie header at all)
+\*  req      the SHAPE of the request the token is presented in: method and header set
+\*           (PlainGet everywhere except in the family RequestShapes)
 \*  age      minted only: seconds between mint and presentation
 Algs      == {"configured", "otherHash", "pss", "otherFamily", "none", "hsPem", "hsDer", "unknown"}
 TimeVals  == {-Far, -1, 0, 1, Far, Absent}
@@ -150,9 +161,18 @@ Markers   == {"true", "false", "absent", "wrongMarker"}
 SigMuts   == {"sigEdit", "sigB64Tail", "truncSig", "truncEmptySig"}
 Mutations == {"none", "headerEdit", "claimsEdit", "truncTwoSeg", "truncMid", "extraSegment", "empty", "garbage"} \cup SigMuts
 
+\* request shapes: the method, and what the request carries besides the cookie - nothing, the headers of a
+\* CORS preflight (Access-Control-Request-Method + Origin; together with OPTIONS this IS a preflight, with
+\* any other method just two headers), or X-Requested-With (a script's request)
+Methods  == {"GET", "HEAD", "POST", "PUT", "DELETE", "OPTIONS"}
+HdrSets  == {"none", "preflight", "xrw"}
+PlainGet == [method |-> "GET", hdr |-> "none"]
+Shapes   == { [method |-> m, hdr |-> h] : m \in Methods, h \in HdrSets }
+IsPreflight(r) == r.method = "OPTIONS" /\ r.hdr = "preflight"
+
 Base == [src |-> "crafted", kind |-> "session", alg |-> "configured", key |-> "this",
          iss |-> "eq", aud |-> "eq", audform |-> "str", iat |-> -1, nbf |-> -1, exp |-> Far,
-         marker |-> "true", mutation |-> "none", slot |-> "named", age |-> 0, by |-> "none"]
+         marker |-> "true", mutation |-> "none", slot |-> "named", age |-> 0, by |-> "none", req |-> PlainGet]
 
 Fields == {"kind", "alg", "key", "iss", "aud", "audform", "iat", "nbf", "exp", "marker", "mutation", "slot"}
 FieldDom(f) == CASE f = "kind" -> {"session", "tracking"}
@@ -211,7 +231,7 @@ Minted(kind, c, depl, form, age, life, mut, slot) ==
    iss |-> IF DeplUrl(c, depl) = c.url THEN "eq" ELSE IF SameDeployment(DeplUrl(c, depl), c.url) THEN "equiv" ELSE "other",
    aud |-> IF DeplUrl(c, depl) = c.url THEN "eq" ELSE IF SameDeployment(DeplUrl(c, depl), c.url) THEN "equiv" ELSE "other",
    audform |-> form, iat |-> -age, nbf |-> -age, exp |-> life - age,
-   marker |-> "true", mutation |-> mut, slot |-> slot, age |-> age, by |-> depl]
+   marker |-> "true", mutation |-> mut, slot |-> slot, age |-> age, by |-> depl, req |-> PlainGet]
 KindForms == { <<"session", "str">>, <<"tracking", "arr">>, <<"tracking", "str">> }   \* str: jwt.MarshalSingleStringAsArray = FALSE
 KindForms2 == { <<"session", "str">>, <<"tracking", "arr">> }
 Depls == {"this", "otherKey", "otherURL"}
@@ -228,6 +248,24 @@ MintedUrl(c)   == MintedBy(c, {"this"}, KindForms2, Ages)
 MintedMut(c)   == UNION { { Minted(kf[1], c, "this", kf[2], a, MintExp(kf[1], c), m, s) :
                               a \in {1, LifeOf(kf[1], c) + 1}, m \in Mutations, s \in {"named", "other"} } : kf \in KindForms }
 
+\* the request shape as a dimension of a presentation: no cookie at all, a garbage cookie, tokens the
+\* statement refuses for one reason each (own session token older than the lifetime, own fresh tracking
+\* token, fresh session token of a deployment with another key, of a sibling, a hand-made expired one, one
+\* without the session marker) and own fresh session tokens (MustAccept) - each in every shape.  The
+\* statement knows no request shape: the wrapped handler runs iff the token is this SP's fresh session token.
+ShapeTokens(c) ==
+  LET own(a) == Minted("session", c, "this", "str", a, MintExp("session", c), "none", "named")
+  IN  { [own(1) EXCEPT !.slot = "none"],
+        Minted("session", c, "this", "str", 1, MintExp("session", c), "garbage", "named"),
+        own(c.life + 1),
+        Minted("tracking", c, "this", "arr", 1, MintExp("tracking", c), "none", "named"),
+        Minted("session", c, "otherKey", "str", 1, MintExp("session", c), "none", "named"),
+        Minted("session", c, "sibPath", "str", 1, MintExp("session", c), "none", "named"),
+        [Base EXCEPT !.exp = -1], [Base EXCEPT !.marker = "absent"],
+        own(1), own(c.life \div 2), own(c.life - 1) }
+RequestShapes(c) == { [t EXCEPT !.req = r] : t \in ShapeTokens(c), r \in Shapes \ {PlainGet} }
+                    \cup { t \in ShapeTokens(c) : t.slot = "none" }     \* (the others in a plain GET exist already)
+
 On(cfgs, toks) == { <<c, t>> : c \in cfgs, t \in { x \in toks : WF(x) } }
 OnM(cfgs, F(_)) == UNION { { <<c, t>> : t \in F(c) } : c \in cfgs }
 
@@ -236,10 +274,14 @@ TokCases ==
                           \cup On(DiagCfgs, CoreAlg \cup CoreTime \cup CoreScope)
                           \cup OnM(AllCfgs \cup EdgeCfgs \cup CookieCfgs, MintedPlain) \cup OnM(DiagCfgs, MintedMut)
                           \cup OnM(DiagCfgs, MintedSib) \cup OnM(UrlCfgs, MintedUrl)
+                          \cup OnM(DiagCfgs, RequestShapes)
     [] Family = "C16t" -> On(AllCfgs, Pairs(Base)) \cup On(DiagCfgs, Triples(Base))
                           \cup On(AllCfgs, CoreAlg \cup CoreTime \cup CoreScope)
                           \cup OnM(AllCfgs \cup EdgeCfgs \cup CookieCfgs, MintedPlain) \cup OnM(AllCfgs, MintedMut)
                           \cup OnM(AllCfgs, MintedSib) \cup OnM(UrlCfgs, MintedUrl)
+                          \cup OnM(FourCfgs, RequestShapes)
+    \* only the request shapes (the refutation of the deviation PreflightBypass)
+    [] Family = "shape" -> OnM(DiagCfgs, RequestShapes)
 
 ----------------------------------------------------------------------------
 (* assertions (part "map") *)
@@ -262,6 +304,7 @@ SubjAuthn == { Assn(s, st, au) : s \in {"nameid", "noNameID", "noSubject"},
 
 MapInputs == CASE Family = "C16q" -> { Assn("nameid", st, <<"s1">>) : st \in StmtsUpTo2 } \cup SubjAuthn
                [] Family = "C16t" -> { Assn("nameid", st, <<"s1">>) : st \in StmtsUpTo2 \cup Stmts3 } \cup SubjAuthn
+               [] Family = "shape" -> {}
 MapCases == { <<c, a>> : c \in DiagCfgs, a \in MapInputs }
 
 Keys == {"F1", "N1", "N2", "SI"}
@@ -297,7 +340,7 @@ LifeSelEq(full, a, cd, sc) == IF full THEN TRUE
 LifeSel(c, a, cd, sc) == IF c.cookieAge = "equal" THEN LifeSelEq(Family = "C16t" /\ c \in DiagCfgs, a, cd, sc)
                          ELSE IF Family = "C16t" /\ DiagBase(c) THEN LifeSelEq(FALSE, a, cd, sc)
                          ELSE a \in AuthnFew /\ << cd, sc >> \in { <<"none", "none">>, <<"beyond", "beyond">> }
-LifeCfgs == (IF Family = "C16q" THEN DiagCfgs ELSE FourCfgs) \cup CookieCfgs
+LifeCfgs == IF Family = "shape" THEN {} ELSE (IF Family = "C16q" THEN DiagCfgs ELSE FourCfgs) \cup CookieCfgs
 
 ----------------------------------------------------------------------------
 Init == /\ \/ /\ part = "token" /\ (\E p \in TokCases : cfg = p[1] /\ in = p[2])
@@ -412,9 +455,13 @@ ReturnSession == /\ pc = <<"sess", "Return">>
                  /\ pc' = <<"mw", "RequireAccount">>
                  /\ UNCHANGED <<part, cfg, in, res, out, subj, claims, si, ai, ni, mt, ident>>
 
-\* middleware.go:117-129
+\* middleware.go:117-129: the session decides, nothing else of the request is looked at (r.Method and the
+\* headers other than Cookie are not read: in.req plays no part).
+\* Named deviation PreflightBypass (FALSE in the code): a request shaped like a CORS preflight goes to the
+\* wrapped handler whatever GetSession would have said (in the changed code: before GetSession is asked).
 RequireAccount == /\ pc = <<"mw", "RequireAccount">>
-                  /\ out' = IF res.sess.verdict = "accept" THEN "handler"
+                  /\ out' = IF PreflightBypass /\ IsPreflight(in.req) THEN "handler"
+                            ELSE IF res.sess.verdict = "accept" THEN "handler"
                             ELSE IF err = "ErrNoSession" THEN "flow" ELSE "onerror"
                   /\ pc' = <<"trk", "Cookie">>
                   /\ UNCHANGED <<part, cfg, in, res, err, subj, claims, si, ai, ni, mt, ident>>
@@ -530,7 +577,8 @@ Why == [otherKey   |-> in.key # "this",                                   \* sig
         \* deployment derives from its URL
         otherAud   |-> in.aud \notin {"eq", "equiv"},      \* ("equiv": the same URL in another spelling - left open)
         otherIss   |-> in.iss \notin {"eq", "equiv"},
-        altered    |-> in.mutation \notin {"none", "sigB64Tail"}]          \* truncated or altered
+        altered    |-> in.mutation \notin {"none", "sigB64Tail"},          \* truncated or altered
+        noToken    |-> in.slot = "none"]                                   \* the request presents no cookie at all
 MustReject == Tok /\ \E f \in DOMAIN Why : Why[f]
 \* a token this deployment's CreateSession returned, presented unchanged in the session cookie
 \* strictly inside (iat, exp), boundary seconds excluded.  The cookie's Max-Age is no clause of the
